@@ -469,6 +469,11 @@ def run_cache_scenario(sc, chooser, max_steps=3000):
     for tid in sorted(sc["threads"]):
         run.add_thread(tid, [mk_op(o) for o in sc["threads"][tid]])
     run.events.extend(pre_events)
+    run.namer = lambda v: ("S%d" % tokens[id(v)]) if id(v) in tokens else None
+    cd = cache.__dict__
+    run.state_digest = lambda: (tuple(sorted((k, tokens.get(id(v), -1)) for k, v in cd["entriesDict"].items())),
+                                tuple(cd["entriesList"]), cd["firstIndex"], cd["lastIndex"], CTX.now,
+                                tuple(s.resumable for s in keep))
     _RUN[0] = run
     try:
         run.go()
@@ -580,6 +585,8 @@ def run_rsa_scenario(sc, chooser, max_steps=3000):
         return f
     for tid in sorted(sc["threads"]):
         run.add_thread(tid, [mk_op(o) for o in sc["threads"][tid]])
+    kd = key.__dict__
+    run.state_digest = lambda: (int(kd["blinder"]), int(kd["unblinder"]), CTX.drbgs["-"].ctr if "-" in CTX.drbgs else -1)
     _RUN[0] = run
     try:
         run.go()
@@ -674,6 +681,9 @@ def run_db_scenario(sc, chooser, max_steps=3000, workdir=None):
         return f
     for tid in sorted(sc["threads"]):
         run.add_thread(tid, [mk_op(o) for o in sc["threads"][tid]])
+    inner = db.db.inner
+    run.state_digest = lambda: tuple(sorted((k if isinstance(k, str) else bytes(k).decode("latin1"),
+                                             bytes(inner[k])) for k in inner.keys()))
     pre = [{"ev": "call", "th": 0, "op": "set", "u": op[1], "v": op[2]} for op in sc["pre"]]
     for c in pre:
         run.events.append(c)
@@ -729,6 +739,8 @@ def _explore_worker(job):
     if mode == "dfs":
         st = sched.explore(lambda ch: runner(sc, ch), arg, on_run, max_runs=cap)
         stats["truncated"] = st["truncated"]
+        stats["cache_cuts"] = st["cached"]
+        stats["states"] = st["states"]
     else:
         for i in range(arg):
             rnd = random.Random(repr((env.SEED, "c18", kind, sc["name"], i)))
